@@ -149,6 +149,37 @@ def gen_condmany(rng, pid):
     lines.append("end")
     return "\n".join(lines)
 
+def gen_soup(rng, pid):
+    """everything at once: 3-6 processes, long scripts over the whole instruction set, recording switched on for
+    some objects at the start, a condition observing a guard, user events that stop / interrupt / signal"""
+    np_ = rng.randint(3, 6)
+    caps = dict(res=rng.randint(1, 2), pool=rng.randint(1, 3), buf=rng.choice([1, 2, 3]), oq=rng.choice([1, 2, -1]), pq=rng.choice([1, 2, -1]))
+    bufunit = 62 if rng.random() < 0.2 else 0
+    if bufunit: caps["buf"] = rng.choice([2, 3])
+    lines = ["prog %d" % pid, "cap res=%d pool=%d buf=%d oq=%d pq=%d bufunit=%d" % (caps["res"], caps["pool"], caps["buf"], caps["oq"], caps["pq"], bufunit)]
+    allops = ["hold"] * 6 + ["tadd"] * 3 + ["tcancel", "tclear", "wproc", "wproc", "wevent", "intr", "intr", "stop", "exit", "yield", "resume", "prio", "prio", "start",
+              "acq", "acq", "acq", "rel", "rel", "pre", "pacq", "pacq", "prel", "prel", "ppre", "bput", "bput", "bget", "bget", "qput", "qget", "pqput", "pqget",
+              "pqcancel", "pqreprio", "cwait", "cwait", "csig", "setflag", "setflag", "ccancel", "cremove"]
+    for p in range(1, np_ + 1):
+        code = []
+        if p == 1:
+            for o in rng.sample([1, 3, 4, 6, 8], rng.randint(0, 2)): code.append("rec %d 1" % o)
+            if rng.random() < 0.4: code.append("csub %d" % rng.randint(0, 1))
+        while len(code) < rng.randint(5, 11):
+            op = rng.choice(allops)
+            ins = gen_instr(rng, op, np_, p, caps)
+            code.append(ins)
+            # pair an acquisition with a later release most of the time
+            if op in ("acq", "pre") and rng.random() < 0.7: code += ["hold %d" % rng.choice([0, 1, 2]), "rel " + ins.split()[1]]
+            if op in ("pacq", "ppre") and rng.random() < 0.7: code += ["hold %d" % rng.choice([0, 1]), "prel " + ins.split()[1]]
+        lines.append("proc %d %d %d : %s" % (p, rng.choice([0, 0, 1, 2, 3]), 1 if (p == 1 or rng.random() < 0.85) else 0, " ; ".join(code[:12])))
+    if rng.random() < 0.7:
+        q = rng.randint(1, np_)
+        act = rng.choice(["nop", "intr %d -2 0" % q, "intr %d 9 5" % q, "stop %d 5" % q, "csig", "setflag 0 1", "setflag 1 1", "prio %d 3" % q, "start %d" % q])
+        lines.append("uev 1 %d %d : %s" % (rng.choice([0, 1, 2, 3]), rng.choice([0, 0, 1, 5]), act))
+    lines.append("end")
+    return "\n".join(lines)
+
 def gen_longrec(rng, pid):
     """a recorded history long enough to make the sample arrays grow (1024, 2048 samples)"""
     o, body = rng.choice([(1, ["acq 1", "hold 1", "rel 1", "hold %d" % rng.randint(0, 2)]),
@@ -171,6 +202,11 @@ def main():
         rng = random.Random(seed * 15485863 + 11)
         for i in range(count):
             print(gen_condmany(rng, i + 1))
+        return
+    if profile == "soup":
+        rng = random.Random(seed * 32452843 + 3)
+        for i in range(count):
+            print(gen_soup(rng, i + 1))
         return
     if profile == "longrec":
         rng = random.Random(seed * 7919 + 17)
